@@ -181,7 +181,7 @@ def main(argv=None):
     seed = int(os.environ.get("VERIF_SEED", "0") or 0)
     t0 = time.time()
     modname = PROPS[prop]
-    build.prune(keep=8)
+    build.prune()
     ext = build.ext_path("rel")
     os.environ["VERIF_EXT"] = ext
     os.environ.setdefault("PYTHONHASHSEED", "0")
